@@ -603,8 +603,14 @@ func writeEvidence(prop string, cfg *propCfg, tier string, seed int64, m *hx.Sum
 		"violations":  unlisted,
 	}
 	b, _ := json.MarshalIndent(ev, "", " ")
-	os.MkdirAll(filepath.Join(verifDir, "evidence"), 0o755)
-	os.WriteFile(filepath.Join(verifDir, "evidence", prop+".json"), b, 0o644)
+	evDir := filepath.Join(verifDir, "evidence")
+	if os.Getenv("VERIF_REPO") != "" {
+		// development aid (a run against a scratch copy of the library): the evidence files under /verif/evidence
+		// describe runs on /repo only
+		evDir = filepath.Join(verifDir, ".build", "evidence-alt")
+	}
+	os.MkdirAll(evDir, 0o755)
+	os.WriteFile(filepath.Join(evDir, prop+".json"), b, 0o644)
 }
 
 // --------------------------------------------------------------- replay
